@@ -9,17 +9,19 @@ from mvf.core import Failure
 PROP = "C14"
 LEVEL = "fault_enumeration"
 RULE = ("fault enumeration: for each base scenario (pair, chain of 3, diamond fan-in, shifted cycle, weak loop, "
-        "trigger chain) a fault-free run counts the requests (setup_done, each step, each get_data) of every "
-        "simulator; then a fault is injected at EVERY request index of every simulator, for each kind (exception in "
-        "the handler; connection close = process gone; close whose next write is answered with a reset) and transport "
-        "(local: exception; in-memory remote: all three); plus a sampled real-process tier (three `cmd` simulators "
-        "over TCP, one fails with os._exit or an exception at request 0..5: run() ends within a wall budget, every "
-        "other process finalizes once and exits, loop closed, no descriptor leak, under fifo/lifo/picks schedules and with the other simulators' "
-        "pending replies either released or withheld during shutdown; plus Hypothesis-drawn (scenario, schedule, "
-        "fault) triples. Oracle under the controlled loop: run() returns or raises (an idle loop is a hang, exactly), "
-        "virtual time <= stop time-outs, every other simulator finalized exactly once and never stepped after its "
-        "finalize, loop closed, no open transport, no pending task. non-trivial = fault at request index >= 1 with "
-        ">= 1 other simulator; distinct = distinct (scenario, schedule, fault) hashes")
+        "trigger chain, controller with two agents using asynchronous requests; local / in-memory remote / mixed) a "
+        "fault-free run counts the requests (setup_done, each step, each get_data incl. forwarded asynchronous ones) "
+        "of every simulator; then a fault is injected at EVERY request index of every simulator, for each kind "
+        "(exception in the handler; connection close = process gone; close whose next write is answered with a "
+        "reset) and transport (local: exception; in-memory remote: all three), under fifo/lifo/picks schedules and "
+        "with the other simulators' pending replies either released or withheld during shutdown; plus "
+        "Hypothesis-drawn (scenario, schedule, fault) triples; plus a sampled real-process tier (three `cmd` "
+        "simulators over TCP, one fails with os._exit or an exception at request 0..5). Oracle under the controlled "
+        "loop: run() returns or raises (an idle loop is a hang, exactly), virtual time <= stop time-outs, every other "
+        "simulator finalized exactly once and never stepped after its finalize, loop closed, no open transport, no "
+        "pending task; real processes: run() ends within a wall budget, every other process finalizes once and "
+        "exits, loop closed, no descriptor leak. non-trivial = fault at request index >= 1 with >= 1 other "
+        "simulator; distinct = distinct (scenario, schedule, fault) hashes")
 ASSUMPTIONS = [
     "process death is modelled by closing the in-memory transport from the simulator side; the real-process tier "
     "is sampled and uses wall-clock budgets (90 s, a time-out is re-run once and only a repeated one counts)",
